@@ -100,3 +100,20 @@ pub fn golden(_args: &util::Args) {
         std::process::exit(1);
     }
 }
+
+/// `gv hover <file.gom> <line> <col>`: run the three editor queries at one position
+pub fn hover(args: &util::Args) {
+    let file = &args.rest[0];
+    let line: u32 = args.rest.get(1).and_then(|s| s.parse().ok()).unwrap_or(0);
+    let col: u32 = args.rest.get(2).and_then(|s| s.parse().ok()).unwrap_or(0);
+    let src = std::fs::read_to_string(file).expect("read");
+    let dir = util::scratch_dir("hover");
+    let path = dir.join("main.gom");
+    let t = std::time::Instant::now();
+    println!("hover: {:?} ({:?})", compiler::query::hover_type(&path, &src, line, col), t.elapsed());
+    let t = std::time::Instant::now();
+    println!("dot: {:?} ({:?})", compiler::query::dot_completions(&path, &src, line, col), t.elapsed());
+    let t = std::time::Instant::now();
+    println!("colon: {:?} ({:?})", compiler::query::colon_colon_completions(&path, &src, line, col), t.elapsed());
+    let _ = std::fs::remove_dir_all(&dir);
+}
